@@ -64,6 +64,7 @@ type blockedCall struct {
 // world is one instance of the system under test plus the harness' view of it.
 type world struct {
 	mu     sync.Mutex
+	pubMu  sync.Mutex
 	notify chan struct{}
 	raws   []raw
 
@@ -708,11 +709,16 @@ func (w *world) pubManifest(id int) error {
 		Manifest: &m,
 		Group:    &dtypes.Group{GroupID: w.lease.GroupID(), GroupSpec: dtypes.GroupSpec{Name: groupName}},
 	}
+	// concurrent publishers (free mode): the recorded order must be the order in which the bus accepted the events
+	w.pubMu.Lock()
+	defer w.pubMu.Unlock()
 	w.record(raw{Th: "H", K: "pub_manifest", M: id})
 	return w.bus.Publish(ev)
 }
 
 func (w *world) pubClosed() error {
+	w.pubMu.Lock()
+	defer w.pubMu.Unlock()
 	w.record(raw{Th: "H", K: "pub_closed"})
 	return w.bus.Publish(mtypes.EventLeaseClosed{ID: w.lease})
 }
